@@ -44,6 +44,41 @@ def run(tier, seed):
     if not r2.violation:
         raise v.ToolError("Epoch model sanity: destroying immediately must violate NoUseAfterDestroy")
     mc_states, mc_trans = r.distinct, r.generated
+    # ---- in-flight write buffers: a failing io_uring_enter with writes queued (BufTrace.tla)
+    fxv = v.build_harness()
+    shm0 = v.shm_dir("c20u")
+    buf_traces = 0
+    buf_events = 0
+    try:
+        for i in range(4 if tier == "quick" else 16):
+            t = os.path.join(rd, "uring_%d.ndjson" % i)
+            rc, so, se = v.run_cmd([fxv, "uringfault", "--dir", shm0, "--out", t, "--values", str([6, 3, 10, 1][i % 4]),
+                                    "--vlen", str([3 << 20, 1 << 20, 200000, 4 << 20][i % 4]), "--at", str([0, 0, 0, 0][i % 4]),
+                                    "--cpus", str([2, 4][i % 2])], timeout=120)
+            if rc != 0:
+                if v.panic_in_code_under_test(se):
+                    p = v.save_replay("c20", "uring_%d.panic.txt" % i, se[-1500:])
+                    viol.append({"what": "panic in uringfault", "replay": p, "key": "panic"})
+                    continue
+                raise v.ToolError("fxv uringfault failed rc=%s: %s" % (rc, (se or so)[-400:]))
+            info = json.loads(so.strip().splitlines()[-1])
+            if info.get("enter_calls", 0) < 1 or info.get("events", 0) < 2:
+                raise v.ToolError("vacuity: uringfault did not reach io_uring_enter (%s)" % info)
+            rb = v.run_tlc("BufTrace", "BufTrace.cfg", rd, workers=1, timeout=300, env_extra={"TRACE": t},
+                           depth_first=True, coverage=False, xmx="1g")
+            buf_traces += 1
+            buf_events += info["events"]
+            mc_extra = rb.distinct
+            if rb.violation and rb.violation.startswith("invariant"):
+                keep = v.save_replay("c20", os.path.basename(t), open(t).read())
+                viol.append({"what": "write buffer freed while the kernel may still own it (%s; flush -> %s)" % (rb.violation, info.get("flush")),
+                             "replay": keep, "key": "buffer freed in flight"})
+            elif rb.violation:
+                raise v.ToolError("BufTrace: " + rb.out[-400:])
+            else:
+                v.tlc_ok(rb, "BufTrace")
+    finally:
+        shutil.rmtree(shm0, ignore_errors=True)
     # ---- re-execution under AddressSanitizer
     fxa = v.build_harness(asan=True)
     shm = v.shm_dir("c20")
@@ -127,6 +162,7 @@ def run(tier, seed):
                 "and without injected I/O faults, clean drop and abandon); distinct_nontrivial counts the "
                 "distinct program groups",
         "samples": samples,
+        "inflight_buffer_traces": buf_traces, "inflight_buffer_events": buf_events,
         "states": mc_states, "transitions": mc_trans,
     }
     return {"level": "exploration", "coverage": cov, "violations": viol,
